@@ -1715,6 +1715,17 @@ class multislater(wave_function_auto):
         return jnp.linalg.det(green[jnp.ix_(cre, des)])
 
     @partial(jit, static_argnums=0)
+    def _green_by_orbital(self, green: jax.Array, ref_occ: jax.Array) -> jax.Array:
+        """Excitation indices are orbital indices: put row k of the half green's function
+        (k-th occupied orbital of the reference) at the row of that orbital."""
+        nocc = green.shape[0]
+        return (
+            jnp.zeros((self.norb, self.norb), green.dtype)
+            .at[jnp.nonzero(ref_occ, size=nocc)[0]]
+            .set(green)
+        )
+
+    @partial(jit, static_argnums=0)
     def _calc_green_restricted(self, walker: jax.Array, wave_data: dict) -> jax.Array:
         ref_det = wave_data["ref_det"][0]
         return (
@@ -1734,12 +1745,19 @@ class multislater(wave_function_auto):
             wave_data["coeff"],
             wave_data["ref_det"],
         )
-        green = self._calc_green_restricted(walker, wave_data)
+        green = self._calc_green(
+            walker[:, : self.nelec[0]], walker[:, : self.nelec[1]], wave_data
+        )
+        green = [
+            self._green_by_orbital(green[0], ref_det[0]),
+            self._green_by_orbital(green[1], ref_det[1]),
+        ]
 
         # overlap with the reference determinant
-        overlap_0 = (
-            jnp.linalg.det(walker[jnp.nonzero(ref_det[0], size=self.nelec[0])[0], :])
-            ** 2
+        overlap_0 = jnp.linalg.det(
+            walker[jnp.nonzero(ref_det[0], size=self.nelec[0])[0], : self.nelec[0]]
+        ) * jnp.linalg.det(
+            walker[jnp.nonzero(ref_det[1], size=self.nelec[1])[0], : self.nelec[1]]
         )
 
         # overlap / overlap_0
@@ -1747,18 +1765,18 @@ class multislater(wave_function_auto):
 
         for i in range(1, self.max_excitation + 1):
             overlap += vmap(self._det_overlap, in_axes=(None, 0, 0))(
-                green, Acre[(i, 0)], Ades[(i, 0)]
+                green[0], Acre[(i, 0)], Ades[(i, 0)]
             ).dot(coeff[(i, 0)])
             overlap += vmap(self._det_overlap, in_axes=(None, 0, 0))(
-                green, Bcre[(0, i)], Bdes[(0, i)]
+                green[1], Bcre[(0, i)], Bdes[(0, i)]
             ).dot(coeff[(0, i)])
 
             for j in range(1, self.max_excitation - i + 1):
                 overlap_a = vmap(self._det_overlap, in_axes=(None, 0, 0))(
-                    green, Acre[(i, j)], Ades[(i, j)]
+                    green[0], Acre[(i, j)], Ades[(i, j)]
                 )
                 overlap_b = vmap(self._det_overlap, in_axes=(None, 0, 0))(
-                    green, Bcre[(i, j)], Bdes[(i, j)]
+                    green[1], Bcre[(i, j)], Bdes[(i, j)]
                 )
                 overlap += (overlap_a * overlap_b) @ coeff[(i, j)]
 
@@ -1799,6 +1817,10 @@ class multislater(wave_function_auto):
             wave_data["ref_det"],
         )
         green = self._calc_green(walker_up, walker_dn, wave_data)
+        green = [
+            self._green_by_orbital(green[0], ref_det[0]),
+            self._green_by_orbital(green[1], ref_det[1]),
+        ]
 
         # overlap with the reference determinant
         overlap_0 = jnp.linalg.det(
